@@ -74,6 +74,12 @@ def _domains(tier):
     for et in Z.TYPES_2D:
         for poly in polys:
             out.append({"dom": "emb", "src": "gmsh", "elemType": et, "poly": poly})
+    # elements with CURVED interior edges / faces (ZooMesh.curved: the boundary, hence the tiled polygon / polyhedron, is unchanged): the
+    # Jacobian varies inside the elements.  det J has degree <= the degree of both rules of every type except TETRA10 with its 4-point
+    # stiffness rule (left out); the centre of mass (x det J, beyond the mass rule for the cubic / quartic types) is not demanded here.
+    for et in Z.TYPES_2D + Z.TYPES_3D:
+        if Z.proto(et).order >= 2 and et != "TETRA10":
+            out.append({"dom": "2d" if Z.dim_of(et) == 2 else "3d", "src": "curved", "elemType": et, "poly": "k2curved"})
     # bodies of size 1e-6 (no absolute length may enter normals, measures or point location)
     for et in ("TETRA4", "HEXA8", "PRISM6", "PRISM15"):
         out.append({"dom": "3d", "src": "recon", "elemType": et, "poly": "box", "scale": 1e-6})
@@ -303,6 +309,13 @@ def cases(tier, seed):
                 out.append(dict(d, kind="motion", hist=h))
                 out.append(dict(d, kind="motion", hist=h, regime="end"))
             continue
+        if d["src"] == "curved" and tier == "quick":
+            # quick tier: every single motion and every ordered pair observed at the end only
+            for h in _histories(1):
+                out.append(dict(d, kind="motion", hist=h))
+            for h in _histories(2):
+                out.append(dict(d, kind="motion", hist=h, regime="end"))
+            continue
         for h in _histories(depth):
             c = {"kind": "motion"}
             c.update(d)
@@ -460,6 +473,11 @@ def _build_domain(case):
         zm = Z.template_2d(et, k=2, distort=True, diag=1)
         mesh = zm.build()
         ex = {"measure": zm.exact["measure"], "centroid": np.asarray(zm.exact["centroid"], float), "bmeasure": 4.0, "dim": 2}
+    elif src == "curved":
+        d_ = Z.dim_of(et)
+        zm = (Z.template_2d(et, k=2, diag=1) if d_ == 2 else Z.template_3d(et, k=2)).curved()
+        mesh = zm.build()
+        ex = {"measure": zm.exact["measure"], "centroid": np.asarray(zm.exact["centroid"], float), "bmeasure": 4.0 if d_ == 2 else 6.0, "dim": d_}
     elif src == "recon":
         from EasyFEA.Utilities import MeshIO
 
@@ -544,7 +562,7 @@ def _check_state(mesh, X0, ex, Q, b, dom, key, step, obs):
         v.append(viol("measure", f"{det} measure {meas!r}, exact {ex['measure']!r}", **key))
     cen = np.asarray(mesh.center, dtype=float)
     cex = Q @ ex["centroid"] + b
-    if np.abs(cen - cex).max() > 1e-10 * L:
+    if key["src"] != "curved" and np.abs(cen - cex).max() > 1e-10 * L:
         v.append(viol("centroid", f"{det} mesh.center {cen}, exact {cex}", **key))
     nops += 2
     obs += [meas, cen]
